@@ -5,6 +5,8 @@ import Mathlib.Tactic.FieldSimp
 import Mathlib.Tactic.Linarith
 import Mathlib.Algebra.Order.Field.Rat
 import Mathlib.Algebra.Order.Field.Basic
+import Mathlib.Algebra.BigOperators.Group.List.Basic
+import Mathlib.Tactic.NormNum
 /-!
 # C17 — tuning curves are spikes per occupancy; decoding is their Bayes posterior
 
@@ -196,6 +198,25 @@ theorem posterior_order (w : List ℚ) (i j : Nat) (hi : i < w.length) (hj : j <
     (normalise w)[i]'(by simpa [normalise] using hi) ≤ (normalise w)[j]'(by simpa [normalise] using hj) ↔ w[i] ≤ w[j] := by
   simp only [normalise, List.getElem_map]
   exact div_le_div_iff_of_pos_right h
+
+
+/-! ### each unit is paired with ITS OWN tuning curve, in whatever order the units are given
+The weight of a feature bin depends on the units only through the pairs (rate of the unit in this bin, count of the unit in this time bin):
+`Σ rate` and `Π rate^count`.  Both are invariant under any re-ordering of the PAIRS (a dict group with keys inserted in any order, columns in any
+order) — and not under re-ordering one side only. -/
+def likelihood (units : List (ℚ × ℕ)) : ℚ := (units.map fun u => u.1 ^ u.2).prod
+def rateSum (units : List (ℚ × ℕ)) : ℚ := (units.map (·.1)).sum
+
+theorem likelihood_perm {u v : List (ℚ × ℕ)} (h : u.Perm v) : likelihood u = likelihood v :=
+  (h.map _).prod_eq
+
+theorem rateSum_perm {u v : List (ℚ × ℕ)} (h : u.Perm v) : rateSum u = rateSum v :=
+  (h.map _).sum_eq
+
+/-- pairing the counts of one unit with the tuning curve of another changes the weight: the hypothesis "pairs" is necessary -/
+theorem mispairing_witness :
+    likelihood (List.zip [2, 3] [1, 0]) ≠ likelihood (List.zip [2, 3] [0, 1]) := by
+  norm_num [likelihood]
 
 
 /-! ### non-vacuity -/
